@@ -217,6 +217,8 @@ pub fn layout_diff(a: &[Gap], b: &[Gap]) -> (usize, bool) {
 #[derive(Clone, Copy, PartialEq, Eq, Debug)]
 pub enum CommentPolicy {
     None,
+    /// only own-line comments before line starts
+    OwnLine,
     /// only trailing line comments at line ends and own-line comments before line starts
     LineEdges,
     /// additionally inline block comments and line comments in the middle of statements
@@ -246,7 +248,8 @@ pub fn insert_comments(p: &Prog, t: &mut Tape, policy: CommentPolicy, density: u
     for (i, tok) in p.toks.iter().enumerate() {
         if i > 0 && t.chance(1, density) {
             if tok.line_start {
-                match t.below(4) {
+                let pick = t.below(4);
+                match if policy == CommentPolicy::OwnLine && pick == 0 { 1 } else { pick } {
                     0 => {
                         // trailing line comment at the end of the previous line
                         let c = t.pick_str(LINE_COMMENTS);
